@@ -76,9 +76,9 @@ func runC14Push(c C14Case) (st Stats, err error) {
 	if p := guard(func() { s = newStackOfKind(c.Kind, c.Cap) }); p != "" {
 		return st, violf("setup/panic", "%s", p)
 	}
-	var log []any         // values the installed policy was consulted with, since the last check
-	var curErr error      // model of Err()
-	var polErr error      // the error the installed policy returns
+	var log []any    // values the installed policy was consulted with, since the last check
+	var curErr error // model of Err()
+	var polErr error // the error the installed policy returns
 	var rejected map[int]bool
 	installed := false
 	noNest := false
@@ -506,6 +506,16 @@ func runC14Closures(c C14Case) (st Stats, err error) {
 			}
 			// Marshal on the initialised receiver
 			n := s.Len()
+			if cl := installed["marshal"]; cl != nil {
+				// whatever is handed over (one argument at least), the closure's result is the answer
+				for fi, input := range [][]any{{[]any{}}, {[]any{[]any{}}}, {[]any(nil)}, {[]any{"AND", "y"}}, {"junk"}, {nil}, {[]any{[]any{"OR", "z"}}}} {
+					before := cl.calls
+					if e := s.Marshal(input...); e != cl.err || s.Len() != n || cl.calls != before+1 {
+						v = violf("Stack.Marshal/closure/input-form", "%s: Marshal(input form %d: %#v)=%v Len %d->%d with %d consultations; the installed closure returns %v", where, fi, input, e, n, s.Len(), cl.calls-before, cl.err)
+						return
+					}
+				}
+			}
 			merr := s.Marshal("OR", "x")
 			if cl := installed["marshal"]; cl != nil {
 				if merr != cl.err || s.Len() != n {
